@@ -29,6 +29,7 @@ CONSTANTS
  NV = {nv}
  PrevOf <- MPrevOf
  FsmPrev <- MFsmPrev
+ NFsm = {nfsm}
  Conds <- {conds}
  Tests <- {tests}
  Rhs <- {rhs}
@@ -48,16 +49,19 @@ CHECK_DEADLOCK FALSE
 
 
 def instances(th):
-    ctrl = dict(nv=48, conds="CondsSmall", tests="TestsSmall", rhs="RhsOne" if not th else "RhsSmall", targets="TargetsCtrl",
+    ctrl = dict(nfsm=1, nv=48, conds="CondsSmall", tests="TestsSmall", rhs="RhsOne" if not th else "RhsSmall", targets="TargetsCtrl",
                 states="NoStates", inits="NoInits", maxlen=6 if th else 5, maxdepth=2, maxassign=2, mutant="")
-    lhs = dict(nv=48, conds="CondsOne", tests="NoTests", rhs="RhsLhs" if not th else "RhsRich", targets="TargetsRich",
+    lhs = dict(nfsm=1, nv=48, conds="CondsOne", tests="NoTests", rhs="RhsLhs" if not th else "RhsRich", targets="TargetsRich",
                states="NoStates", inits="NoInits", maxlen=3, maxdepth=1, maxassign=2, mutant="")
-    fsm = dict(nv=144, conds="CondsOne", tests="NoTests", rhs="RhsOne", targets="TargetsFsm",
+    fsm = dict(nfsm=1, nv=144, conds="CondsOne", tests="NoTests", rhs="RhsOne", targets="TargetsFsm",
                states="ThreeStates" if th else "TwoStates", inits="SomeInits", maxlen=8 if th else 7, maxdepth=2,
                maxassign=3, mutant="")
-    mixed = dict(nv=144, conds="CondsRich", tests="TestsRich", rhs="RhsRich", targets="TargetsRich",
+    mixed = dict(nfsm=1, nv=144, conds="CondsRich", tests="TestsRich", rhs="RhsRich", targets="TargetsRich",
                  states="ThreeStates", inits="SomeInits", maxlen=14 if th else 11, maxdepth=3, maxassign=5, mutant="")
-    return ctrl, lhs, fsm, mixed
+    # two FSMs, the second possibly nested in a State of the first (m.next must address the innermost one)
+    fsm2 = dict(nfsm=2, nv=432, conds="NoConds", tests="NoTests", rhs="RhsOne", targets="TargetsOne",
+                states="TwoStates", inits="NoInitArg", maxlen=10 if th else 9, maxdepth=2, maxassign=3, mutant="")
+    return ctrl, lhs, fsm, mixed, fsm2
 
 
 def collect(ctx, name, res, nstates=None):
@@ -136,7 +140,8 @@ def run_sim_stage(ctx, name, inst, num):
 
 def run(ctx):
     th = ctx.thorough
-    ctrl, lhs, fsm, mixed = instances(th)
+    ctrl, lhs, fsm, mixed, fsm2 = instances(th)
+    run_dump_stage(ctx, "fsm2", fsm2)
     run_dump_stage(ctx, "ctrl", ctrl)
     run_dump_stage(ctx, "lhs", lhs)
     run_dump_stage(ctx, "fsm", fsm)
